@@ -430,3 +430,54 @@ pub fn compact(sink: &mut Sink, seed: u64, thorough: bool) {
         sink.emit(&json!({"ev": "Compact", "id": id, "tag": format!("compact:{}", i % 4), "items": items.iter().map(|x| vec![x.0, x.1]).collect::<Vec<_>>(), "kind": kind, "data": data, "len": len}));
     }
 }
+
+/// Birthday sweep for content-keyed shortcuts in the block structure stage (a block served from a cache / de-duplication table keyed by
+/// a digest of its content instead of being divided): millions of random payloads for the cells with the most blocks go through the
+/// encode and structure stages only (hooks; about 50 microseconds each), and a payload is KEPT when some block of its interleaved
+/// stream does not XOR to zero (every Reed-Solomon codeword of these codes does: the generator has the root 1).  Kept payloads - and
+/// a few others, so that the scenario never is empty - are then built through the public API and judged in full by TLC.
+/// The sweep only selects inputs.  With 3 240 block pairs per call, two million calls meet a 32-bit key collision with probability 0.78.
+pub fn birthday(sink: &mut Sink, seed: u64, thorough: bool) {
+    let trials: usize = if thorough { 24_000_000 } else { 2_000_000 };
+    let nthreads = 14usize;
+    let cells: [(usize, usize); 3] = [(40, 3), (40, 2), (36, 3)];        // (version, level): 81, 68 and 64 blocks
+    let (tx, rx) = std::sync::mpsc::channel::<(usize, usize, Vec<u8>)>();
+    let mut handles = Vec::new();
+    for t in 0..nthreads {
+        let tx = tx.clone();
+        handles.push(std::thread::spawn(move || {
+            let mut r = rng(seed, 500 + t as u64);
+            for i in 0..trials / nthreads {
+                let (v, e) = cells[if i % 8 == 7 { 1 + i % 2 } else { 0 }];
+                let cap = capacity(2, e, v);
+                let mut p: Vec<u8> = vec![0u8; cap];
+                r.fill(&mut p[..]);
+                let (ver, ecl) = (version(v), LEVELS[e]);
+                let res = std::panic::catch_unwind(std::panic::AssertUnwindSafe(|| {
+                    let data = verif::encode(&p, ecl, fast_qr::Mode::Byte, ver);
+                    let st = verif::structure(&data, ecl, ver);
+                    let tb = verif::tables(ver, ecl);
+                    let (total, ndata, g1c, g1s, g2c, g2s) = (tb[0], tb[2], tb[3], tb[4], tb[5], tb[6]);
+                    let nb = g1c + g2c;
+                    let ec = (total - ndata) / nb;
+                    // XOR of every block of the interleaved stream: data codeword k of block b, then its error-correction codewords
+                    let mut x = vec![0u8; nb];
+                    let mut idx = 0usize;
+                    for k in 0..g1s.max(g2s) { for b in 0..nb { let len = if b < g1c { g1s } else { g2s }; if k < len { x[b] ^= st[idx]; idx += 1; } } }
+                    for _k in 0..ec { for b in 0..nb { x[b] ^= st[idx]; idx += 1; } }
+                    x.iter().any(|&z| z != 0) || idx != total
+                }));
+                let suspicious = res.unwrap_or(true);
+                if suspicious || (t == 0 && i < 2) { let _ = tx.send((v, e, p)); }
+            }
+        }));
+    }
+    drop(tx);
+    for h in handles { let _ = h.join(); }
+    let mut kept: Vec<(usize, usize, Vec<u8>)> = rx.try_iter().collect();
+    kept.truncate(40);
+    for (i, (v, e, p)) in kept.into_iter().enumerate() {
+        let s = BuildSpec { input: p, ecl: Some(e), mode: Some(2), version: Some(v), mask: Some(i % 8), grp: 0, tag: format!("birthday:{v}:{e}"), lite: false };
+        sink.build(&s);
+    }
+}
